@@ -59,19 +59,19 @@ func c14WriteTwice(n int) {
 	if n > 0 {
 		vp.Assert(d1.ByteAt(446+4) == d2.ByteAt(446+4), "type byte of slot 0 identical on both disks")
 	}
-	// second write of the same table onto disk A: nothing changes
-	before := make([]byte, 66)
+	// second write of the same table onto disk A: no byte of the disk changes
+	before := make([]byte, 512)
 	for i := range before {
-		before[i] = d1.ByteAt(446 + int64(i))
+		before[i] = d1.ByteAt(int64(i))
 	}
 	err3 := t1.Write(d1, int64(vp.U32("sizeA"))*512)
 	vp.Assert(err3 == nil, "rewrite accepted")
 	vp.Assert(len(d1.Log) == 2, "rewrite is one write")
 	w := d1.Log[1]
-	vp.Assert(w.Off >= 446, "rewrite stays inside the table area (start)")
-	vp.Assert(w.Off+int64(len(w.Data)) <= 512, "rewrite stays inside the table area (end)")
+	vp.Assert(w.Off >= 0, "rewrite offset not negative")
+	vp.Assert(w.Off+int64(len(w.Data)) <= 512, "rewriting an MBR touches sector 0 only")
 	for i := range before {
-		vp.Assert(d1.ByteAt(446+int64(i)) == before[i], "writing the same table again changes no byte")
+		vp.Assert(d1.ByteAt(int64(i)) == before[i], "writing the same table again changes no byte")
 	}
 	vp.Assert(vp.NondetSources() == 0, "mbr.Table.Write consults no clock, random source or map order")
 	vp.Cover("written twice")
